@@ -6,6 +6,11 @@ import (
 	"encoding/binary"
 	"encoding/hex"
 	"fmt"
+	clienttypes "github.com/cosmos/ibc-go/v7/modules/core/02-client/types"
+	connectiontypes "github.com/cosmos/ibc-go/v7/modules/core/03-connection/types"
+	channeltypes "github.com/cosmos/ibc-go/v7/modules/core/04-channel/types"
+	commitmenttypes "github.com/cosmos/ibc-go/v7/modules/core/23-commitment/types"
+	ibctm "github.com/cosmos/ibc-go/v7/modules/light-clients/07-tendermint"
 	"strconv"
 	"strings"
 	"time"
@@ -185,6 +190,17 @@ func BuildMsg(actors []*Actor, m *MsgSpec) (sdk.Msg, error) {
 		return &streamtypes.MsgCancelStream{Receiver: B, Sender: A}, nil
 	case "str.params":
 		return &streamtypes.MsgUpdateParams{Authority: A, Params: streamtypes.Params{ValidatorFee: decOf(m.P.ValFee)}}, nil
+	case "ibc.client":
+		// a light client of some counterparty chain (anybody may create one)
+		cs := ibctm.NewClientState("counterparty-1", ibctm.DefaultTrustLevel, 14*24*time.Hour, 21*24*time.Hour, 10*time.Second, clienttypes.NewHeight(1, 5), commitmenttypes.GetSDKSpecs(), []string{"upgrade", "upgradedIBCState"})
+		cons := ibctm.NewConsensusState(time.Unix(GenesisTS, 0).UTC(), commitmenttypes.NewMerkleRoot([]byte("apphash-of-the-counterparty")), make([]byte, 32))
+		return clienttypes.NewMsgCreateClient(cs, cons, A)
+	case "ibc.conninit":
+		return connectiontypes.NewMsgConnectionOpenInit(fmt.Sprintf("07-tendermint-%d", m.Id), "07-tendermint-0", commitmenttypes.NewMerklePrefix([]byte("ibc")), nil, 0, A), nil
+	case "ibc.chaninit":
+		return channeltypes.NewMsgChannelOpenInit("transfer", "ics20-1", channeltypes.UNORDERED, []string{fmt.Sprintf("connection-%d", m.Id)}, "transfer", A), nil
+	case "ibc.chanack":
+		return channeltypes.NewMsgChannelOpenAck("transfer", fmt.Sprintf("channel-%d", m.Id), "channel-0", "ics20-1", []byte("proof"), clienttypes.NewHeight(1, 10), A), nil
 	case "bank.send":
 		return &banktypes.MsgSend{FromAddress: A, ToAddress: B, Amount: sdk.Coins{coinOf(m.Amt, m.Denom)}}, nil
 	case "bank.multisend":
